@@ -139,11 +139,11 @@ func verifHarnessC19SubSecond() {
 	readFrac := nondetMathI64("read.frac")
 	assume(and(verifNowSec >= 1, verifNowSec < 1<<40, verifNowFrac >= 0, verifNowFrac < 1000000000, readFrac >= 0, readFrac < 1000000000))
 	cs := &cachedSecret{LastAccess: nondetMathI64("access"), Declared: nondetBool("declared")}
-	assume(and(cs.LastAccess >= 1, cs.LastAccess < 1<<40)) // a real read happened (stamp 0 means "never read")
-	// the read precedes now
+	// any stamp a cache may carry, also one in the future or absurdly far away (stamp 0 means "never read" and is the
+	// whole-second harness's business)
+	assume(and(cs.LastAccess != 0, cs.LastAccess > -(1<<62), cs.LastAccess < 1<<62))
 	nowNS := verifNowSec*1000000000 + verifNowFrac
 	readNS := cs.LastAccess*1000000000 + readFrac
-	assume(readNS <= nowNS)
 	got := s.hasExpired(cs)
 	assert("dropped-only-if-really-unread-for-longer-than-the-age", implies(got, and(not(cs.Declared), s.expiryAge > 0, nowNS-readNS > int64(s.expiryAge))))
 	reach("end")
